@@ -13,12 +13,13 @@ import (
 // repetition, implicit lineto after moveto, compact arc flags, every number notation of
 // the BNF and all legal ways of abutting numbers without a separator.
 type pgen struct {
-	r     *vh.Rand
-	known bool
-	hits  map[string]bool
-	sb    strings.Builder
-	last  string // last token written ("" after a command letter)
-	lastK byte   // 'n' number, 'f' flag, 'c' command
+	r        *vh.Rand
+	known    bool
+	hits     map[string]bool
+	sb       strings.Builder
+	pcx, pcy float64 // previous control point (unreflected), a near-miss target
+	last     string  // last token written ("" after a command letter)
+	lastK    byte    // 'n' number, 'f' flag, 'c' command
 }
 
 func (g *pgen) hit(k string) { g.hits[k] = true }
@@ -187,6 +188,7 @@ func (g *pgen) cmd(c byte) {
 
 // state of the path generated so far, from the independent interpreter
 func (g *pgen) state() (cx, cy, rx, ry float64, fam byte) {
+	defer func() { g.pcx, g.pcy = 2*cx-rx, 2*cy-ry }() // the previous control point itself
 	pi, err := parsePath(g.sb.String())
 	if err != nil || len(pi.segs) == 0 {
 		return
@@ -297,6 +299,8 @@ func (g *pgen) gen() string {
 					pair(rx, ry, true)
 				case coin && k == 1:
 					pair(cx, cy, true)
+				case coin && k == 2 && fam == 'C':
+					pair(g.pcx, g.pcy, true) // near miss: the unreflected point
 				default:
 					pair(0, 0, false)
 				}
@@ -306,12 +310,14 @@ func (g *pgen) gen() string {
 				pair(cx, cy, coin && g.r.Chance(1, 3))
 				pair(cx, cy, coin && g.r.Chance(1, 6))
 			case 'Q':
-				k := g.r.Intn(3)
+				k := g.r.Intn(4)
 				switch {
 				case coin && k == 0 && fam == 'Q':
 					pair(rx, ry, true)
 				case coin && k == 1:
 					pair(cx, cy, true)
+				case coin && k == 2 && fam == 'Q':
+					pair(g.pcx, g.pcy, true) // near miss: the unreflected point
 				default:
 					pair(0, 0, false)
 				}
